@@ -6,7 +6,8 @@ set -u
 PATCH=$(realpath "$1"); shift
 TRY=/work/try
 SCR=/tmp/try_repo_$$
-git -C "$TRY" merge -q main -m sync >/dev/null 2>&1
+git -C "$TRY" checkout -q -- . ; git -C "$TRY" clean -fdq evidence corpus 2>/dev/null
+git -C "$TRY" merge -q main -m sync >/dev/null 2>&1 || { echo "try worktree cannot be synced"; exit 2; }
 git -C /repo worktree add -q "$SCR" HEAD || exit 2
 if ! git -C "$SCR" apply "$PATCH"; then echo "PATCH DOES NOT APPLY"; git -C /repo worktree remove --force "$SCR"; exit 2; fi
 cd "$TRY"
